@@ -55,6 +55,64 @@ theorem nodup_uniq (l : List Nat) : (uniq l).Nodup := nodup_uniqGo [] l
 theorem length_uniq_le (l : List Nat) : (uniq l).length ≤ l.length :=
   ((nodup_uniq l).subperm (fun _ h => mem_uniq.mp h)).length_le
 
+theorem le_foldl_max (l : List Nat) (a : Nat) : a ≤ l.foldl max a ∧ ∀ x ∈ l, x ≤ l.foldl max a := by
+  induction l generalizing a with
+  | nil => simp
+  | cons y ys ih =>
+    simp only [List.foldl_cons, List.mem_cons]
+    obtain ⟨h1, h2⟩ := ih (max a y)
+    refine ⟨by omega, ?_⟩
+    rintro x (rfl | hx)
+    · omega
+    · exact h2 x hx
+
+/-! ## the `new_indices` lookup table -/
+
+theorem tableGo_length (u : List Nat) (k : Nat) (t : List (Option Nat)) :
+    (tableGo u k t).length = t.length := by
+  induction u generalizing k t with
+  | nil => rfl
+  | cons x xs ih => simp [tableGo, ih]
+
+theorem tableGo_get (u : List Nat) (k : Nat) (t : List (Option Nat)) (hn : u.Nodup)
+    (hb : ∀ x ∈ u, x < t.length) (x : Nat) :
+    (tableGo u k t)[x]? = if x ∈ u then some (some (k + u.idxOf x)) else t[x]? := by
+  induction u generalizing k t with
+  | nil => simp [tableGo]
+  | cons y ys ih =>
+    have hy : y < t.length := hb y (List.mem_cons_self ..)
+    obtain ⟨hny, hn'⟩ := List.nodup_cons.mp hn
+    simp only [tableGo]
+    rw [ih (k + 1) (t.set y (some k)) hn' (by intro z hz; simpa using hb z (List.mem_cons_of_mem _ hz))]
+    by_cases hxy : x = y
+    · subst hxy
+      simp [hny, hy]
+    · have hyx : ¬ y = x := fun h => hxy h.symm
+      by_cases hm : x ∈ ys
+      · have hb' : (y == x) = false := by simpa using hyx
+        simp only [hm, if_true, List.mem_cons, or_true, List.idxOf_cons, hb', cond_false]
+        congr 2; omega
+      · simp [hm, hxy, hyx]
+
+theorem newIndex_mkTable (u : List Nat) (hn : u.Nodup) (x : Nat) (hx : x ∈ u) :
+    newIndex (mkTable u) x = some (u.idxOf x) := by
+  unfold newIndex mkTable
+  rw [tableGo_get u 0 _ hn ?_ x]
+  · simp [hx]
+  · intro z hz
+    have := (le_foldl_max u 0).2 z hz
+    simp; omega
+
+theorem newPairs_eq (uP uS : List Nat) (hP : uP.Nodup) (hS : uS.Nodup) (l : List (Nat × Nat))
+    (h : ∀ q ∈ l, q.1 ∈ uP ∧ q.2 ∈ uS) :
+    newPairs (mkTable uP) (mkTable uS) l = some (l.map fun p => (uP.idxOf p.1, uS.idxOf p.2)) := by
+  induction l with
+  | nil => rfl
+  | cons q qs ih =>
+    have hq := h q (List.mem_cons_self ..)
+    simp only [newPairs, newIndex_mkTable uP hP q.1 hq.1, newIndex_mkTable uS hS q.2 hq.2,
+      ih (fun x hx => h x (List.mem_cons_of_mem _ hx)), List.map_cons]
+
 /-! ## gather -/
 
 theorem gather_length {data : List Row} {idx : List Nat} {r : List Row}
